@@ -252,7 +252,7 @@ def main(tier: str, seed: int) -> int:
     P = core.NPROC
     n = 2400 if tier == "quick" else 60000
     cases = [{"rng_seed": f"c12-{seed}-{i}", "count": n // P} for i in range(P)]
-    results, notes = core.run_workers("checks.c12", "run_chunk", cases)
+    results, notes = core.run_workers("checks.c12", "run_chunk", cases, case_wall=5000, timeout=6000)
     for nt in notes:
         chk.note_inconclusive(nt)
     distinct = 0
